@@ -336,7 +336,10 @@ static char i64f32[] = "cvtsi2ssq %rax, %xmm0";
 static char i64f64[] = "cvtsi2sdq %rax, %xmm0";
 static char i64f80[] = "movq %rax, -8(%rsp); fildll -8(%rsp)";
 
-static char u64f32[] = "cvtsi2ssq %rax, %xmm0";
+static char u64f32[] =
+  "test %rax,%rax; js 1f; pxor %xmm0,%xmm0; cvtsi2ssq %rax,%xmm0; jmp 2f; "
+  "1: mov %rax,%rdi; and $1,%eax; pxor %xmm0,%xmm0; shr %rdi; "
+  "or %rax,%rdi; cvtsi2ssq %rdi,%xmm0; addss %xmm0,%xmm0; 2:";
 static char u64f64[] =
   "test %rax,%rax; js 1f; pxor %xmm0,%xmm0; cvtsi2sd %rax,%xmm0; jmp 2f; "
   "1: mov %rax,%rdi; and $1,%eax; pxor %xmm0,%xmm0; shr %rdi; "
@@ -352,7 +355,13 @@ static char f32u16[] = "cvttss2sil %xmm0, %eax; movzwl %ax, %eax";
 static char f32i32[] = "cvttss2sil %xmm0, %eax";
 static char f32u32[] = "cvttss2siq %xmm0, %rax";
 static char f32i64[] = "cvttss2siq %xmm0, %rax";
-static char f32u64[] = "cvttss2siq %xmm0, %rax";
+// Values of 2^63 and above do not fit the signed conversion: convert
+// x - 2^63 and set the top bit.
+static char f32u64[] =
+  "mov $0x5f000000, %eax; movd %eax, %xmm1; ucomiss %xmm1, %xmm0; jae 1f; "
+  "cvttss2siq %xmm0, %rax; jmp 2f; "
+  "1: subss %xmm1, %xmm0; cvttss2siq %xmm0, %rax; "
+  "mov $0x8000000000000000, %rdx; xor %rdx, %rax; 2:";
 static char f32f64[] = "cvtss2sd %xmm0, %xmm0";
 static char f32f80[] = "movss %xmm0, -4(%rsp); flds -4(%rsp)";
 
@@ -363,7 +372,11 @@ static char f64u16[] = "cvttsd2sil %xmm0, %eax; movzwl %ax, %eax";
 static char f64i32[] = "cvttsd2sil %xmm0, %eax";
 static char f64u32[] = "cvttsd2siq %xmm0, %rax";
 static char f64i64[] = "cvttsd2siq %xmm0, %rax";
-static char f64u64[] = "cvttsd2siq %xmm0, %rax";
+static char f64u64[] =
+  "mov $0x43e0000000000000, %rax; movq %rax, %xmm1; ucomisd %xmm1, %xmm0; jae 1f; "
+  "cvttsd2siq %xmm0, %rax; jmp 2f; "
+  "1: subsd %xmm1, %xmm0; cvttsd2siq %xmm0, %rax; "
+  "mov $0x8000000000000000, %rdx; xor %rdx, %rax; 2:";
 static char f64f32[] = "cvtsd2ss %xmm0, %xmm0";
 static char f64f80[] = "movsd %xmm0, -8(%rsp); fldl -8(%rsp)";
 
@@ -380,7 +393,12 @@ static char f80u16[] = FROM_F80_1 "fistpl" FROM_F80_2 "movzwl -24(%rsp), %eax";
 static char f80i32[] = FROM_F80_1 "fistpl" FROM_F80_2 "mov -24(%rsp), %eax";
 static char f80u32[] = FROM_F80_1 "fistpq" FROM_F80_2 "mov -24(%rsp), %eax";
 static char f80i64[] = FROM_F80_1 "fistpq" FROM_F80_2 "mov -24(%rsp), %rax";
-static char f80u64[] = FROM_F80_1 "fistpq" FROM_F80_2 "mov -24(%rsp), %rax";
+static char f80u64[] =
+  "mov $0x5f000000, %eax; mov %eax, -4(%rsp); flds -4(%rsp); "
+  "fucomip %st(1), %st; ja 1f; fsubs -4(%rsp); "
+  FROM_F80_1 "fistpq" FROM_F80_2 "mov -24(%rsp), %rax; "
+  "mov $0x8000000000000000, %rdx; xor %rdx, %rax; jmp 2f; "
+  "1: " FROM_F80_1 "fistpq" FROM_F80_2 "mov -24(%rsp), %rax; 2:";
 static char f80f32[] = "fstps -8(%rsp); movss -8(%rsp), %xmm0";
 static char f80f64[] = "fstpl -8(%rsp); movsd -8(%rsp), %xmm0";
 
